@@ -40,6 +40,11 @@ CLAIMED = {
    text="After every statement of typed and directed sessions (both compile modes) the hooked (sp, frame, closure, live-context) counts must equal their values before it (all zero after a failure). Loop programs of six loop kinds x nine body tails are run with 3/30/300 iterations; the max stack pointer per memory kind and max live contexts at back-edges must be identical.",
    note="Relies on the verif accessors for sp/fp/closure/context counts and the step hook's per-memory maxima.",
    design="6/C09"),
+ "C10": dict(
+   technique="runtime monitoring: shadow-copy invariant monitor (every value ever produced is deep-copied and re-compared after every operation) over value-package operation histories + globals-frame differential on structure-sharing sessions",
+   text="Histories of concatenations, slices, element reads and NewArray over existing values run on the real value package with up to 64 live values re-read after every operation against their deep copies and a model; array/string sessions that share structure (slices of slices, concat onto slices with spare capacity, partially constant literals, literal-returning functions, recursion on slices, generator prefixes, closures holding slices) have their whole global frame compared with the reference after every statement.",
+   note="ARR (array literal building) is reached only through programs; shadow copies use the harness value type.",
+   design="6/C10"),
  "C08": dict(
    technique="runtime monitoring: twin-run monitor (failure session vs a session that re-creates the completed globals by literal assignments) + residue assertion on hooked state after each failure + differential reference-model monitor",
    text="Sessions prefix·F·suffix with F a parse error or one of the seven runtime error classes raised at top level, at call depth up to 200, in loop bodies, in (nested) generators after the k-th yield, in closures, or several in a row are compared statement-by-statement with a twin that never saw F but holds the same globals, and with the reference; the hooked machine state must be clean after every failure and unchanged by a parse error.",
@@ -80,6 +85,16 @@ CLAIMED = {
    text="VM-legal histories (calls with frame widths crossing 128/256, returns, local writes, frame-header aliases, globals, Clone with and without recycled targets on up to 9 interleaved memories, resets) run on the real memory.Type; after every op every observer of every live memory and alias is compared with a model where each activation is an independent record.",
    note="Histories are limited to what the VM can issue. Tight mode relies on the verif hook trimming a freshly grown stack (append may move at any growth). Language-level reach of the same property comes from C03/C04 sessions.",
    design="6/C18"),
+ "C16": dict(
+   technique="runtime monitoring: cross-process metamorphic monitor over the freshly built cmd/calc in -eval, piped-REPL and file mode, byte-exact against per-mode expectations derived from the reference, plus in-process statement-by-statement comparison",
+   text="Scripts mixing one-line and multi-line statements, strings and comments full of braces/brackets/quotes/semicolons/line breaks, blank and comment-only lines, random layout, with and without final newline run through the real binary in file mode, piped into the REPL and (first statement / self-contained blocks) through -eval; stdout of each mode must equal byte for byte what the reference semantics says that mode prints, file mode must equal entering the statements one by one in-process, exit status 0.",
+   note="Scripts avoid runtime errors (reports contain pointers) and carriage returns. REPL string quoting is treated as the documented presentation difference.",
+   design="6/C16"),
+ "C17": dict(
+   technique="runtime monitoring: contract monitors on injected values (render/round-trip laws evaluated by the program under test), list-model monitor for generator built-ins, enumerated misuse matrix, read() line-sequence monitor in-process and over real processes (pipe, file, FIFO, strace-injected EIO)",
+   text="Random and boundary ints/floats/strings/nested arrays injected as globals: write(x) == write(toa(x)) == toa(x) == reference rendering and aton(toa(n)) == n; fromto/elems/indices collected by loops against plain lists; every built-in with 0..3 arguments of 9 kinds must fail exactly when its contract says so; successive read() calls must return successive lines then a read error, in-process and with the real binary reading a pipe, a file, a chunk-fed FIFO and a file with an injected EIO.",
+   note="Float rendering = Go shortest round-trip formatting; input always ends with a newline; after an injected EIO only 'reported, process alive, script continues' is demanded.",
+   design="6/C17"),
 }
 
 ALL = ["C%02d" % i for i in range(1, 20)]
